@@ -182,6 +182,12 @@ def pairing(chk):
                     for cont in stacks:
                         if rt == f"__elem__(self.{cont}.pop())" and ef[3] >= 1 and not drains(exit_, cont):
                             removed.update(h for h in handles if h == cont or h.startswith(cont + "#"))
+                        elif rt.startswith(f"self.{cont}.pop()[") and rt.endswith("]") and rt[len(f"self.{cont}.pop()["):-1].isdigit() and ef[3] == 0 and not drains(exit_, cont):
+                            # `a, b = self.c.pop(); a.remove(); b.remove()`: the entry pushed last, unpacked (one pop: the unpack effect of the path)
+                            i_ = int(rt[len(f"self.{cont}.pop()["):-1])
+                            names_ = sorted(h for h in handles if h == cont or h.startswith(cont + "#"))
+                            if i_ < len(names_) and sum(1 for e_ in p.effects if e_[0] == "unpack" and U(e_[1]) == f"self.{cont}.pop()") == 1:
+                                removed.add(names_[i_])
                         elif rt == f"self.{cont}.pop()" and ef[3] == 0 and stacks[cont] == [1] * len(stacks[cont]):
                             left = [h for h in sorted(handles) if (h == cont or h.startswith(cont + "#")) and h not in removed]
                             if left:
